@@ -67,6 +67,17 @@ for cap in (1, 2, 3, 4):
      ("NOTE", "sync", "str", "unit"),
     ])
 
+# ---- capacity ten: counts with one and two digits
+iface("q10", "E", 10, "basic", [
+ ("*IDN?", "async", "-", "const:str:" + hx("Q")),
+ ("OK", "async", "-", "unit"),
+ ("VAL?", "sync", "-", "const:u8:7"),
+ ("FAIL", "async", "-", "err:-200"),
+ ("CUST", "async", "-", "errc:42:" + hx("custom")),
+ ("ARG", "async", "u8", "unit"),
+ ("NOTE", "sync", "str", "unit"),
+])
+
 # ---- a queue larger than a byte can count ------------------------------------------------------------
 iface("q300", "E", 300, "basic", [
  ("*IDN?", "async", "-", "const:str:" + hx("Q")),
